@@ -196,6 +196,13 @@ class Chan(Engine):
             return
         ctx.carry()
         ctx.check(text == want, 'C10.ref', 'text form of (version %d, %d-byte payload) is %s, the definition gives %s' % (ver, len(payload), text, want), plen=len(payload))
+        if a['multi'] and a['multi'][0][0] % 2 and len(want) > 2:
+            # this receiver meets corrupted copies before it ever sees the genuine string
+            for q in (len(want) - 1, len(want) // 2, 1):
+                c = A58[(A58.index(want[q]) + 1 + a['multi'][0][1]) % 58] if want[q] in A58 else '2'
+                if c != want[q]:
+                    self._b58_decode_check(want[:q] + c + want[q + 1:], 'with character %d substituted, seen before the genuine string' % q, fault='sub-first')
+            ctx.probe('corrupted-before-genuine')
         got = self._b58_decode_check(text, 'fault-free channel')
         ctx.check(got == ('ok', ver, payload), 'C10.inverse', 'text form of (version %d, %d-byte payload) does not decode back to it: %r' % (ver, len(payload), got[:2]), plen=len(payload))
         ctx.log(0, 0, 'b58check', '', 'len%d' % len(text))
@@ -248,6 +255,10 @@ class Chan(Engine):
                 t = (t[:p] + c + t[p + 1:]) if how == 0 else ((t[:p] + t[p + 1:]) if how == 1 else (t[:p] + c + t[p:]))
             self._b58_decode_check(t, 'after a seeded multi-edit', fault='multi')
         ctx.fault('text.multi-edit', len(a['multi']))
+        # the receiver has now seen thousands of rejected neighbours of this string: the genuine one
+        # must still decode (nothing learnt from rejections may stick)
+        got = self._b58_decode_check(text, 'after all its corrupted neighbours had been refused')
+        ctx.check(got == ('ok', ver, payload), 'C10.inverse', 'the valid text form no longer decodes after its corrupted neighbours were tried: %r' % (got[:1],), plen=len(payload))
         ctx.nontrivial = True
 
     def _raw_pair(self, b):
@@ -545,6 +556,8 @@ class Chan(Engine):
             for p in range(sep + 1, n + 1):
                 self._b32_judge(hrp, text[:p] + c + text[p:], 'with %r inserted at %d' % (c, p), orig, False, fault='ins')
         ctx.fault('extension+insertion', 2 * (n - sep) + 15)
+        ctx.check(self._dec(hrp, want) == orig, 'C11.codec', 'the valid address no longer decodes after its corrupted neighbours were refused', ver=ver, plen=len(prog))
+        ctx.check(self._dec(hrp, want.upper()) == orig, 'C11.case', 'the all-upper-case rendering no longer decodes after the mixed-case renderings were refused', ver=ver, plen=len(prog))
         ctx.nontrivial = True
 
     def _cbech32(self, hrp, text, orig):
